@@ -195,7 +195,12 @@ func (u *vCluster) serve(addr string, w http.ResponseWriter, r *http.Request) {
 	case "/info":
 		io.WriteString(w, `{"version":"1.0.0","broadcast_address":"`+h+`","hostname":"h","tcp_port":4150,"http_port":`+port+`}`)
 	case "/stats":
-		io.WriteString(w, `{"version":"1.0.0","health":"OK","start_time":1,"topics":[{"topic_name":"`+u.topic+
+		// every nsqd of this cluster produces the topic it is asked about
+		tn := u.topic
+		if q.Get("topic") != "" {
+			tn = q.Get("topic")
+		}
+		io.WriteString(w, `{"version":"1.0.0","health":"OK","start_time":1,"topics":[{"topic_name":"`+tn+
 			`","depth":0,"backend_depth":0,"message_count":3,"paused":false,"e2e_processing_latency":{"count":0,"percentiles":null},"channels":[{"channel_name":"`+u.channel+
 			`","depth":0,"backend_depth":0,"in_flight_count":0,"deferred_count":0,"message_count":3,"requeue_count":0,"timeout_count":0,"clients":[],"paused":false,"e2e_processing_latency":{"count":0,"percentiles":null}}]}]}`)
 	default:
